@@ -332,15 +332,16 @@ func (r *Reader) initFields() error {
 }
 
 func (r *Reader) getSource(ent *TOCEntry) (_ *TOCEntry, err error) {
-	if ent.Type == "hardlink" {
+	// Follow the chain of hardlinks iteratively; the TOC is untrusted so the chain can be cyclic.
+	for hops := 0; ent.Type == "hardlink"; hops++ {
+		if hops > len(r.m) {
+			return nil, fmt.Errorf("%q is a hardlink in a cyclic chain of hardlinks", ent.Name)
+		}
 		org, ok := r.m[cleanEntryName(ent.LinkName)]
 		if !ok {
 			return nil, fmt.Errorf("%q is a hardlink but the linkname %q isn't found", ent.Name, ent.LinkName)
 		}
-		ent, err = r.getSource(org)
-		if err != nil {
-			return nil, err
-		}
+		ent = org
 	}
 	return ent, nil
 }
